@@ -22,7 +22,7 @@ func init() {
 				"C16.topo (the topological listing has no gaps: InsertEvent consumes a topological index only after Store.SetEvent stored the event under it; dbSetEvents writes the key of exactly that index; Bootstrap reads consecutive keys), " +
 				"C16.fields (every field of a persisted type is serialised by its codec — exported, untagged — or is a listed cache that is recomputed; on the pinned tree RoundInfo.decided / queued are neither: known finding F-C16-2), C16.codec (dbSetX marshals with T.Marshal[DB] and dbGetX unmarshals with the matching T.Unmarshal[DB] of the same type), C16.sibling (thorough: the mobile store equals badger_store.go modulo the import path). " +
 				"NOT decided: behaviour after eviction and reopen as a value-level map model; durability; the five dropped store errors reported by errcheck in hashgraph (read one by one: none loses persisted content on this property's paths)."},
-		Rules:    []ruleFunc{c16readthrough, c16writethrough, c16keys, c16codec, func(p *Prog, r *Report) { topoRule(p, r, "C16.topo") }, c16fields, c16lru, func(p *Prog, r *Report) { keyArgRule(p, r, "C16.keyarg") }, func(p *Prog, r *Report) { replayRule(p, r, "C16.replay") }},
+		Rules:    []ruleFunc{c16readthrough, c16writethrough, c16keys, c16codec, func(p *Prog, r *Report) { topoRule(p, r, "C16.topo") }, c16fields, c16lru, func(p *Prog, r *Report) { keyArgRule(p, r, "C16.keyarg") }, func(p *Prog, r *Report) { replayRule(p, r, "C16.replay") }, c16errs},
 		Thorough: []ruleFunc{siblingRule("C16.sibling")},
 	})
 }
@@ -682,5 +682,71 @@ func keyArgRule(p *Prog, r *Report, rule string) {
 	}
 	if n == 0 {
 		r.Fail(rule, "key-sites", "-", "", "no database key with an integer component found")
+	}
+}
+
+// storeErrExempt: store mutations whose error is deliberately not looked at (function:callee -> reason).
+var storeErrExempt = map[string]string{
+	"DivideRounds:SetEvent":     "re-stores an event whose round / timestamp were just computed; both are recomputed by every replay (the event itself was stored by InsertEvent, whose error is checked)",
+	"Bootstrap:SetPeerSet":      "re-seeds the in-memory genesis set read back from the database at the start of the replay; a collision only means it is already there",
+	"NewBadgerStore:SetPeerSet": "seeds the in-memory genesis set of a freshly created store (cannot collide)",
+	"LoadBadgerStore:SetPeerSet": "re-seeds the in-memory set read back from the database",
+	"SetPeerSet:addParticipant": "in-memory bookkeeping of a participant already validated",
+}
+
+// C16.errs: a failed write is never silently taken for a successful one: the error returned by a
+// mutating Store method (and by the db* writers underneath) is used — tested, returned or logged —
+// at every call site; it is not discarded.
+func c16errs(p *Prog, r *Report) {
+	const rule = "C16.errs"
+	r.Rule(rule, 20, "the error of every mutating store call is used (not discarded)")
+	isMut := func(f *types.Func) bool {
+		if f == nil || f.Pkg() == nil || !strings.HasSuffix(f.Pkg().Path(), "/"+HG) {
+			return false
+		}
+		sig, _ := f.Type().(*types.Signature)
+		if sig == nil || sig.Recv() == nil || sig.Results().Len() == 0 || !isErrorType(sig.Results().At(sig.Results().Len()-1).Type()) {
+			return false
+		}
+		rn := recvNamed(f)
+		if rn != "Store" && rn != "InmemStore" && rn != "BadgerStore" {
+			return false
+		}
+		n := f.Name()
+		return strings.HasPrefix(n, "Set") || strings.HasPrefix(n, "Add") || strings.HasPrefix(n, "dbSet") || n == "Reset" || strings.HasPrefix(n, "addParticipant")
+	}
+	n := 0
+	for _, fn := range p.Mod {
+		pp := fnPkgPath(fn)
+		if !strings.HasSuffix(pp, "/"+HG) && !strings.HasSuffix(pp, "/"+NODE) {
+			continue
+		}
+		top := fn
+		for top.Parent() != nil {
+			top = top.Parent()
+		}
+		for _, b := range fn.Blocks {
+			for _, in := range b.Instrs {
+				c, ok := in.(*ssa.Call)
+				if !ok {
+					continue
+				}
+				f := calleeFunc(c.Common())
+				if !isMut(f) {
+					continue
+				}
+				n++
+				used := c.Referrers() != nil && len(*c.Referrers()) > 0
+				key := top.Name() + ":" + f.Name()
+				if why, ex := storeErrExempt[key]; ex && !used {
+					r.Ok(rule, key, p.ipos(c), fnName(fn), "error not looked at by design: "+why)
+					continue
+				}
+				r.Check(used, rule, key, p.ipos(c), fnName(fn), "error used", "the error returned by "+recvNamed(f)+"."+f.Name()+" is discarded: a failed write (full disk, closed database, key collision) is taken for a successful one and the in-memory state runs ahead of what was recorded")
+			}
+		}
+	}
+	if n == 0 {
+		r.Fail(rule, "store-mutations", "-", "", "no mutating store call found")
 	}
 }
